@@ -164,6 +164,7 @@ class TdmsSegment(object):
                 new_obj.has_data = False
                 self.ordered_objects[existing_object_index] = new_obj
         elif raw_data_index_header == RAW_DATA_INDEX_MATCHES_PREVIOUS:
+            _check_has_raw_data_index(existing_object)
             # Re-use object and ensure we set has data to true for this segment
             if not existing_object.has_data:
                 new_obj = copy(existing_object)
@@ -189,6 +190,7 @@ class TdmsSegment(object):
             else:
                 segment_obj = previous_segment_obj
         elif raw_data_index_header == RAW_DATA_INDEX_MATCHES_PREVIOUS:
+            _check_has_raw_data_index(previous_segment_obj)
             # Re-use previous object and ensure we set has data to true for this segment
             if not previous_segment_obj.has_data:
                 segment_obj = copy(previous_segment_obj)
@@ -642,6 +644,14 @@ class ObjectListKey(object):
 
     def __hash__(self):
         return self._hash
+
+
+def _check_has_raw_data_index(segment_obj):
+    """ Check that an object has had a raw data index defined, so that the index may be reused
+    """
+    if segment_obj.data_type is None:
+        raise ValueError("Raw data index for %s says to reuse previous structure, "
+                         "but no raw data index has been defined for this object" % segment_obj.path)
 
 
 def read_property(f, endianness="<"):
